@@ -404,7 +404,7 @@ Lemma prov_update_inv c s L :
   CInv c L -> pv_exists (cp_prov c) = true ->
   CInv (fst (prov_update c s)) (listen L (snd (prov_update c s))).
 Proof.
-  intros I Ex. destruct I as [Ih Psh Pn Sv Un Pr Ci]. destruct (Psh Ex) as (Ps & Pl & Pp). unfold prov_update.
+  intros I Ex. destruct I as [Ih Psh Pn Sv Un Pr Ci]. destruct (Psh Ex) as (Ps & Pl & Pp). rewrite prov_update_eq. unfold prov_update_old.
   set (p := set_prov (cp_prov c) true (pv_confirmed (cp_prov c))).
   set (sname := replace_byte DOT DASH (bs_data (s_name s))).
   set (fq := sname ++ [DOT] ++ bs_data (s_type s)).
@@ -526,7 +526,7 @@ Definition one_provider (c : comp) (ev : event papi) : Prop :=
 
 Lemma prov_on_message_silent p m : silent (prov_on_message p m).
 Proof.
-  unfold prov_on_message. destruct (negb (pv_confirmed p) || m_response m); [apply silent_nil|].
+  rewrite prov_on_message_eq. unfold prov_on_message_old. destruct (negb (pv_confirmed p) || m_response m); [apply silent_nil|].
   destruct (fold_left _ (m_queries m) (false, false, false, false)) as [[[sb sp] ss] st].
   destruct (fold_left _ (m_records m) (sp, ss, st)) as [[sp' ss'] st'].
   destruct (sb || sp' || (sp' || ss') || (sp' || st')); [|apply silent_nil]. intros m0 [H|[]]. discriminate.
@@ -551,7 +551,7 @@ Proof.
                  (pb = None -> cp_prober c = None)).
     { destruct (cp_prober c) as [pb|] eqn:Ep.
       - destruct (ci_prober _ _ I pb Ep) as (_ & _ & R & _). cbn [prober_handle].
-        destruct (pb_confirmed pb || negb (m_response m)).
+        unfold prober_ignore_message in *. destruct (pb_confirmed pb || negb (m_response m)).
         + split; [apply silent_nil|]. split; [|discriminate]. intros pb' E. injection E as <-. eauto.
         + pose proof (on_records_silent (m_records m) pb) as S3. pose proof (on_records_rel (m_records m) pb _ R) as R3.
           destruct (on_records (m_records m) pb) as [pb' e]. cbn [fst snd] in *.
